@@ -80,6 +80,23 @@ static std::string doStr(const std::vector<uint64_t> &a, const std::vector<uint6
                                 StringUtils::IsLess(cp(ba), cp(bb), SizeT(ba.n), SizeT(bb.n), true),
                                 StringUtils::IsGreater(cp(ba), cp(bb), SizeT(ba.n), SizeT(bb.n), false),
                                 StringUtils::IsGreater(cp(ba), cp(bb), SizeT(ba.n), SizeT(bb.n), true)});
+    // Aliased operands: when one string is a prefix of the other, compare views / raw pointers into ONE
+    // buffer (StringView prefixes of the same text). The answers must not depend on where the units live;
+    // if they do, report the aliased answers so the order-law oracles see them.
+    const std::vector<uint64_t> &lo = (a.size() <= b.size()) ? a : b;
+    const std::vector<uint64_t> &hi = (a.size() <= b.size()) ? b : a;
+    bool                         prefix = true;
+    for (size_t i = 0; i < lo.size(); i++) prefix = prefix && (Char_T(lo[i]) == Char_T(hi[i]));
+    if (prefix) {
+        vh::ExactBuf<Char_T> one(hi);
+        StringView<Char_T>   xa(cp(one), SizeT(ba.n)), xb(cp(one), SizeT(bb.n));
+        const std::string    V2 = bits({xa < xb, xa <= xb, xa > xb, xa >= xb, xa == xb, xa != xb});
+        const std::string    R2 = bits({StringUtils::IsLess(cp(one), cp(one), SizeT(ba.n), SizeT(bb.n), false),
+                                        StringUtils::IsLess(cp(one), cp(one), SizeT(ba.n), SizeT(bb.n), true),
+                                        StringUtils::IsGreater(cp(one), cp(one), SizeT(ba.n), SizeT(bb.n), false),
+                                        StringUtils::IsGreater(cp(one), cp(one), SizeT(ba.n), SizeT(bb.n), true)});
+        if (V2 != S || R2 != R) return V2 + " " + R2;
+    }
     return S + " " + R;
 }
 
